@@ -18,7 +18,7 @@ ID = 'C09'
 LEVEL = 'exploration'
 TECHNIQUE = 'runtime monitor: exactly-once / thread-affinity history checker at a fake channel + flush postcondition under gated and yield-injected schedules'
 RULE = ('task histories: 0-40 tasks, each ok / failing (Exception or BaseException) / slow (<0.05 s) / gated until '
-        'flush has begun, flush from the submitting or another thread, submissions after flush; push histories: 1-25 '
+        'flush has begun, flush from the submitting or another thread, a second flush while the first is waiting, submissions after flush; push histories: 1-25 '
         'snapshots handed over from 1-4 application threads to the real PushService over a fake channel with a seeded '
         'subset of unconvertible snapshots and failing sends; two task handlers active in one process; a backlog of '
         'more than ten seconds made of 3 s tasks; LINE-event yields in deep/task and deep/push; '
